@@ -154,9 +154,11 @@ Proof.
   intros sid b pg o id b' pg' o'. unfold remove_session_sub.
   destruct (nget (b_subs b) id) as [s|].
   2:{ intros H; inversion H; subst. exists []. rewrite app_nil_r. split; [reflexivity|apply prange_nil]. }
-  match goal with |- context [if ?c then _ else _] => destruct c end; intros H; inversion H; subst.
+  cbv zeta. match goal with |- context [if ?c then _ else _] => destruct c end; intros H; inversion H; subst.
+  - eexists. split; [reflexivity|].
+    eapply prange_app; [apply prange_all, sme_all_ids|].
+    replace (pg + 2) with (pg + 1 + 1) by lia. apply prange_all. replace (pg + 1 + 1) with (pg + 2) by lia. apply sme_all_ids.
   - eexists. split; [reflexivity|]. apply prange_all, sme_all_ids.
-  - exists []. rewrite app_nil_r. split; [reflexivity|apply prange_nil].
 Qed.
 
 Lemma rs_fold_prange : forall sid ids b pg o b' pg' o',
